@@ -6,20 +6,31 @@ import os, re, shlex, subprocess, sys, tempfile
 repo = os.path.abspath(sys.argv[1])
 env = dict(os.environ, GOFLAGS="-mod=mod", GOPROXY="off", GOSUMDB="off", GOTOOLCHAIN="local")
 bindir = tempfile.mkdtemp(prefix="regenbin-")
-subprocess.run(["go", "build", "-o", os.path.join(bindir, "ogen"), "./cmd/ogen"], cwd=repo, env=env, check=True)
+for tool in ("ogen", "jschemagen"):
+    subprocess.run(["go", "build", "-o", os.path.join(bindir, tool), "./cmd/" + tool], cwd=repo, env=env, check=True)
+subprocess.run(["go", "build", "-o", os.path.join(bindir, "mkformattest"), "./tools/mkformattest"], cwd=repo, env=env, check=True)
 jobs = []
 for rel in ("internal/integration/generate.go", "examples/generate.go"):
     d = os.path.dirname(os.path.join(repo, rel))
     for line in open(os.path.join(repo, rel)):
         m = re.match(r"//go:generate go run (\S+) (.*)", line.strip())
-        if not m or not m.group(1).endswith("cmd/ogen"):
+        if not m:
             continue
+        tool = m.group(1).rsplit("/", 1)[-1]
+        if tool not in ("ogen", "jschemagen", "mkformattest"):
+            print("unknown directive tool:", m.group(1)); continue
         args = shlex.split(m.group(2))
-        spec = os.path.join(d, args[-1])
-        if not os.path.exists(spec) or os.path.getsize(spec) == 0:
-            print("skip (spec missing/empty):", args[-1]); continue
-        jobs.append((d, args))
-procs = [(a, subprocess.Popen([os.path.join(bindir, "ogen")] + a, cwd=d, env=env, stdout=subprocess.DEVNULL, stderr=subprocess.PIPE)) for d, a in jobs]
+        if tool != "mkformattest":
+            spec = os.path.join(d, args[-1])
+            if not os.path.exists(spec) or os.path.getsize(spec) == 0:
+                print("skip (spec missing/empty):", args[-1]); continue
+        jobs.append((d, tool, args))
+# mkformattest produces an input of a later ogen directive: run it first
+for d, tool, a in jobs:
+    if tool == "mkformattest":
+        subprocess.run([os.path.join(bindir, tool)] + a, cwd=d, env=env, check=True)
+jobs = [j for j in jobs if j[1] != "mkformattest"]
+procs = [(a, subprocess.Popen([os.path.join(bindir, tool)] + a, cwd=d, env=dict(env, GOPACKAGE=os.path.basename(d), GOFILE="generate.go"), stdout=subprocess.DEVNULL, stderr=subprocess.PIPE)) for d, tool, a in jobs]
 bad = 0
 for a, p in procs:
     _, err = p.communicate()
